@@ -36,8 +36,11 @@ func PadPKCS7(buf []byte, size int) ([]byte, error) {
 	}
 	bufLen := len(buf)
 	padLen := size - bufLen%size
-	padding := bytes.Repeat([]byte{byte(padLen)}, padLen)
-	return append(buf, padding...), nil
+	// Build the padded message in a new slice: appending to buf would write into the caller's spare capacity
+	padded := make([]byte, bufLen+padLen)
+	copy(padded, buf)
+	copy(padded[bufLen:], bytes.Repeat([]byte{byte(padLen)}, padLen))
+	return padded, nil
 }
 
 // UnpadPKCS7 removes PKCS#7 from a message.
